@@ -42,6 +42,12 @@ ENUM = {"metadata_type": "define_enum", "namespace": "xAOD.Jet", "name": "Color"
 ENUM2 = {"metadata_type": "define_enum", "namespace": "MyNS", "name": "Kind", "values": ["A", "B"]}
 COLL = {"metadata_type": "add_atlas_event_collection_info", "name": "MyJets", "include_files": ["xAODJet/JetContainer.h"], "container_type": "xAOD::JetContainer", "element_type": "xAOD::Jet", "contains_collection": True}
 COLL_REPLACE = {"metadata_type": "add_atlas_event_collection_info", "name": "Jets", "include_files": ["other/Other.h"], "container_type": "xAOD::OtherContainer", "element_type": "xAOD::Other", "contains_collection": True}
+COLL_PRIVATE_KEY = dict(COLL, element_pointer=True)  # element_pointer is a CMS key: refused on ATLAS, whatever came before
+CMS_COLL = {"metadata_type": "add_cms_aod_event_collection_info", "name": "MyMuons", "include_files": ["DataFormats/MuonReco/interface/Muon.h"], "container_type": "reco::MuonCollection",
+            "element_type": "reco::Muon", "contains_collection": True, "element_pointer": False}
+CMS_COLL_PRIVATE_KEY = dict(CMS_COLL, link_libraries=["SomeLib"])  # link_libraries is an ATLAS key: refused on CMS
+MINI_COLL = {"metadata_type": "add_cms_miniaod_event_collection_info", "name": "MyMuons", "include_files": ["DataFormats/PatCandidates/interface/Muon.h"], "container_type": "pat::MuonCollection",
+             "element_type": "pat::Muon", "contains_collection": True}
 FUNC = {"metadata_type": "add_cpp_function", "name": "MyFunc", "include_files": ["myfunc.h"], "arguments": ["a"], "code": ["double result = a * 2;"], "return_type": "double"}
 TRUTH_NEW = {"metadata_type": "add_method_type_info", "type_string": "xAOD::TruthParticle", "method_name": "nKids", "return_type": "int"}
 TRUTH_OVERRIDE = {"metadata_type": "add_method_type_info", "type_string": "xAOD::TruthParticle", "method_name": "prodVtx", "return_type": "int"}
@@ -76,6 +82,7 @@ A_KIDS = "Select(DS, lambda e: e.TruthParticles('Truth').Select(lambda t: t.nKid
 A_PVTX = "Select(DS, lambda e: e.TruthParticles('Truth').Select(lambda t: t.prodVtx()))"
 C_BREM = "Select(DS, lambda e: e.GsfElectrons('gsf').Select(lambda g: g.nBrem()))"
 C_PT = "Select(DS, lambda e: e.Muons('muons').Select(lambda m: m.pt()))"
+C_MYMU = "Select(DS, lambda e: e.MyMuons('mine').Select(lambda m: m.pt()))"
 M_PT = "Select(DS, lambda e: e.Muons('slimmedMuons').Select(lambda m: m.pt()))"
 
 # steps: (label, backend, query text, declares?, expected to fail?, needs extended md?)
@@ -107,6 +114,10 @@ STEP_POOL = [
     ("extended-md-pt", "atlas", q(A_PT, [XMD]), True, False),
     ("extended-md-then-bad-body", "atlas", q(A_BAD_BODY, [XMD]), True, True),
     ("extended-md-cms", "cms_aod", q(C_PT, [XMD]), True, False),
+    ("cms-declare-collection", "cms_aod", q(C_MYMU, [CMS_COLL]), True, False),
+    ("miniaod-declare-collection", "cms_miniaod", q(C_MYMU, [MINI_COLL]), True, False),
+    ("cms-collection-with-atlas-key", "cms_aod", q(C_MYMU, [CMS_COLL_PRIVATE_KEY]), True, True),
+    ("atlas-collection-with-cms-key", "atlas", q(A_MYJETS, [COLL_PRIVATE_KEY]), True, True),
     ("cms-plain", "cms_aod", q(C_PT), False, False),
     ("cms-declare-pt-int", "cms_aod", q(C_PT, [MU_INT]), True, False),
     ("cms-declare-pt-int-then-bad-md", "cms_aod", q(C_PT, [BAD_MD, MU_INT]), True, True),
@@ -120,6 +131,7 @@ PROBES = [
     ("atlas", q(A_FUNC, [FUNC])), ("atlas", q(A_FUNC, [FUNC_V2])), ("atlas", q(A_MYJETS, [COLL])), ("atlas", q(A_MYJETS, [COLL_V2])),
     ("atlas", q(A_TRUTH)), ("cms_aod", q(C_TRK)), ("cms_miniaod", q(M_TRK)), ("atlas", q(A_KIDS)), ("cms_aod", q(C_BREM)),
     ("atlas", q(A_PT, [XMD])), ("atlas", q(A_PT2, [XMD])), ("cms_aod", q(C_PT, [XMD])),
+    ("atlas", q(A_MYJETS, [COLL_PRIVATE_KEY])), ("cms_aod", q(C_MYMU, [CMS_COLL_PRIVATE_KEY])), ("cms_aod", q(C_MYMU, [CMS_COLL])), ("cms_miniaod", q(C_MYMU, [MINI_COLL])),
     ("atlas", q(A_PT, [SCRIPT2])),  # depends on s1 that only an earlier query sent: must fail
     ("atlas", q(A_XMD, [XMD]) + " "),  # trailing blank = do NOT register the extended metadata type first: must fail in a fresh process
 ]
